@@ -17,7 +17,7 @@ Definition ext (st : store) (extra : list iobj) : store := mkStore (heap st ++ e
 Fixpoint fresh (e : iexp) : bool :=
   match e with
   | EMap _ e1 | EFilter _ e1 => fresh e1
-  | ESlot _ | EObj _ | EForever _ => false
+  | ESlot _ | EObj _ | ERVar _ _ | EForever _ => false
   | EStr s => valid_utf8 s
   | _ => true
   end.
@@ -41,7 +41,7 @@ Proof. intros A l r x. rewrite nth_error_app2 by lia. rewrite Nat.sub_diag. refl
 Lemma eval_iter_rep : forall e m id m', fresh e = true -> eval_iter e m = (id, m') ->
   forall extra, exists F, Rep F (ext (ms m') extra) id (chain_spec (snd (chain_of e)) (base_elems e m)).
 Proof.
-  induction e as [xs|xs|a z|s|xs|lo hi|lo|n|n|n|f e IH|p e IH]; intros m id m' Fr H extra;
+  induction e as [xs|xs|a z|s|xs|lo hi|lo|n|n|n|n h|f e IH|p e IH]; intros m id m' Fr H extra;
     cbn [fresh] in Fr; try discriminate Fr.
   - cbn in H. inversion H; subst. exists 1. cbn [chain_of snd chain_spec fold_left base_elems fst].
     destruct (fresh_iter_rep (ext (mkStore (heap (ms m) ++ [OVecIter (length (vecs (ms m))) 0]) (vecs (ms m) ++ [xs])) extra) (length (heap (ms m))))
@@ -168,6 +168,30 @@ Proof.
 Qed.
 Print Assumptions obj_iter_rep.
 
+(* a range VALUE is immutable: whatever else the store holds - however many other ranges were built, whichever
+   iterators exist - iter() of a range a..e held in a variable / vec / field hands out range_elements a e, which
+   depends only on its bounds *)
+Theorem range_value_immutable : forall st id a e, nth_error (heap st) id = Some (ORange a e) ->
+  Rep 1 (snd (obj_iter st id)) (fst (obj_iter st id)) (elements (SrcRange a e)).
+Proof.
+  intros st id a e E. unfold obj_iter. rewrite E. cbn [fst snd alloc_obj elements].
+  apply rep_range. cbn [heap]. apply nth_error_app_here.
+Qed.
+Print Assumptions range_value_immutable.
+
+(* building other ranges (statement press, or inside a mapping function) leaves the Mechanism's state alone *)
+Theorem press_is_noop : forall rec k ofuel loc d lo n m, exec_stmt rec k ofuel loc d (SPress lo n) m = (CNormal, m).
+Proof. reflexivity. Qed.
+Theorem press_fn_is_identity : forall lo n v, apply_fn (PressF lo n) v = v.
+Proof. intros lo n v. destruct v; reflexivity. Qed.
+
+Example range_pressure_example :
+  eval_mech (mkProg true false false [SRange 0 1 0 3; SPress 100 9;
+                                      SFor (ERVar 0 1) [SPrintVar 0; SPress 200 9];
+                                      SCollect (EMap (PressF 300 9) (ERVar 0 1))])
+  = map b ["#0"; "0"; "1"; "2"; "#0"; "[0,1,2,]"; "end"]%string.
+Proof. vm_compute. reflexivity. Qed.
+
 (* calling iter() on what iter() returned changes nothing: x.iter().map(f) (explicit) and x.map(f) (direct, core.yl
    calls self.iter() itself) build the same adapter *)
 Theorem obj_iter_idem : forall st id,
@@ -181,6 +205,7 @@ Proof.
   - unfold alloc_obj, obj_iter. cbn [fst snd heap]. rewrite nth_error_app_here. reflexivity.
   - unfold alloc_obj, obj_iter. cbn [fst snd heap]. rewrite nth_error_app_here. reflexivity.
   - unfold alloc_obj. cbn [fst snd heap vecs]. unfold obj_iter. cbn [heap]. rewrite nth_error_app_here. reflexivity.
+  - unfold alloc_obj, obj_iter. cbn [fst snd heap]. rewrite nth_error_app_here. reflexivity.
 Qed.
 Print Assumptions obj_iter_idem.
 
@@ -219,7 +244,7 @@ Qed.
 
 Lemma eval_iter_stack : forall e m id m', eval_iter e m = (id, m') -> stack m' = stack m.
 Proof.
-  induction e as [xs|xs|a z|s|xs|lo hi|lo|n|n|n|f e IH|p e IH]; intros m id m' H; cbn [eval_iter] in H.
+  induction e as [xs|xs|a z|s|xs|lo hi|lo|n|n|n|n h|f e IH|p e IH]; intros m id m' H; cbn [eval_iter] in H.
   - cbn in H. inversion H; subst. reflexivity.
   - cbn in H. inversion H; subst. reflexivity.
   - destruct (range_new a z) as [c stp]. cbn in H. inversion H; subst. reflexivity.
@@ -230,6 +255,7 @@ Proof.
   - cbn in H. inversion H; subst. reflexivity.
   - destruct (obj_iter (ms m) (nth n (slots m) 0)) as [i s]. inversion H; subst. reflexivity.
   - destruct (obj_iter (ms m) (nth (OBJ + n) (slots m) 0)) as [i s]. inversion H; subst. reflexivity.
+  - destruct (obj_iter (ms m) (nth (RG + n) (slots m) 0)) as [i s]. inversion H; subst. reflexivity.
   - destruct (eval_iter e m) as [i m1] eqn:E. cbn in H. inversion H; subst. cbn. eapply IH; eauto.
   - destruct (eval_iter e m) as [i m1] eqn:E. cbn in H. inversion H; subst. cbn. eapply IH; eauto.
 Qed.
@@ -315,6 +341,8 @@ Proof.
     destruct (fold_loop k ofuel (apply_rd g) init (ms m1) id) as [cc [[acc v] s]].
     destruct cc; inversion H; subst; unfold slen; cbn [m_print m_store stack]; rewrite (eval_iter_stack _ _ _ _ EI); reflexivity.
   - destruct k0; cbn in H; inversion H; subst; reflexivity.
+  - cbn in H. inversion H; subst. reflexivity.
+  - inversion H; subst. reflexivity.
 Qed.
 
 (* for_leaves_no_state ("break and continue leave no iteration state behind"): whatever a statement list does -
